@@ -366,15 +366,15 @@ def gen_cases(tier, seed):
     nparts = 32
     for p in range(nparts):
         cases.append({"kind": "exh", "part": p, "nparts": nparts, "maxlen": 3, "cost": 5})
-    nr = 6 if tier == "quick" else 64
+    nr = 6 if tier == "quick" else 256
     per = 4000 if tier == "quick" else 16000
     for i in range(nr):
         cases.append({"kind": "rand", "idx": i, "n": per, "seed": seed, "cost": 3})
-    ns = 8 if tier == "quick" else 64
+    ns = 8 if tier == "quick" else 256
     pers = 3000 if tier == "quick" else 16000
     for i in range(ns):
         cases.append({"kind": "stan", "idx": i, "n": pers, "seed": seed, "cost": 2})
-    nb = 24 if tier == "quick" else 200
+    nb = 24 if tier == "quick" else 800
     for i in range(nb):
         cases.append({"kind": "builder", "idx": i, "seed": seed, "cost": 1})
     if tier == "thorough":
